@@ -64,8 +64,24 @@ def handle (j : Json) : Except String Json := do
     match maps.lookup r.name with
     | some _ => some (Json.arr #[.str r.name, .bool (distinctOcc lv r)])
     | none => none).toArray
+  -- public queries: [["of", x] | ["at", x, [positions]] | ["n", x, k]]
+  let queries ← jList jArr (fieldD j "queries" (.arr #[]))
+  let namesJ : Except LErr (List LName) → Json := fun r => match r with
+    | .ok l => Json.mkObj [("ok", strsJ (l.map render))]
+    | .error e => Json.mkObj [("err", errJ e)]
+  let qres ← queries.mapM fun q => match q with
+    | [.str "of", .str x] => pure (namesJ (getIsotopomerOf lv x))
+    | [.str "at", .str x, ps] => do
+      let ps ← jList jNat ps
+      pure (namesJ (isotopomersAtPosition lv x ps))
+    | [.str "n", .str x, k] => do
+      let k ← jNat k
+      pure (namesJ (isotopomersWithNLabels lv x k))
+    | _ => .error "bad query"
+  let isosJ := Json.arr ((getIsotopomers lv).map fun kv =>
+    Json.arr #[.str kv.1, strsJ (kv.2.map render)]).toArray
   match buildModel base lv maps init with
-  | .error e => pure (Json.mkObj [("err", errJ e), ("distinct", distinct)])
+  | .error e => pure (Json.mkObj [("err", errJ e), ("distinct", distinct), ("queries", .arr qres.toArray), ("isos", isosJ)])
   | .ok m =>
     let sts ← states.mapM (stateOf m)
     let rhs := sts.map fun st => Json.arr ((m.rhs st).map fun kv =>
@@ -78,6 +94,6 @@ def handle (j : Json) : Except String Json := do
       ("derived", .arr ((m.totals.map fun kv => Json.arr #[.str (render kv.1), strsJ (kv.2.map render)])
           ++ (m.derived.map fun kv => Json.arr #[.str kv.1, strsJ (kv.2.args.map render)])).toArray),
       ("rhs", .arr rhs.toArray),
-      ("sums", .arr sums.toArray)]), ("distinct", distinct)])
+      ("sums", .arr sums.toArray)]), ("distinct", distinct), ("queries", .arr qres.toArray), ("isos", isosJ)])
 
 end Driver.H_c05
